@@ -17,9 +17,10 @@ scratch tree (also on failure / SIGINT / SIGTERM).  Nothing under /repo or /veri
 JSON: {"meta": {...}, "results": [ {name, module, props, kind, bound, backs, tier, expect,
         status: "pass"|"fail"|"timeout"|"error", checks_total, checks_failed, failed_checks: [...],
         unwinding_failure: bool, only_negctl_failed: bool|null, time_s, cmd, counterexample?, detail?} ]}
-status: "pass" = VERIFICATION:- SUCCESSFUL; "fail" = VERIFICATION:- FAILED with a definite verdict;
-"timeout" = wall-clock cap hit; "error" = anything else (build error, unsupported construct, CBMC crash,
-out of memory).  A harness whose status != expect is what the caller treats as a finding.
+status: "pass" = VERIFICATION:- SUCCESSFUL; "fail" = VERIFICATION:- FAILED with at least one failed check that
+is not an unwinding assertion (a definite verdict; `unwinding_failure` says whether unwinding assertions failed
+as well); "timeout" = wall-clock cap hit; "error" = anything else (build error, reachable unsupported construct,
+CBMC crash, out of memory, ONLY unwinding assertions failed = bound too small).  A harness whose status != expect is what the caller treats as a finding.
 Exit code is 0 unless the script itself crashed.
 """
 import argparse
@@ -42,6 +43,8 @@ SHIM = os.path.join(HERE, "shim", "frost_core_verif_shim.rs")
 KANI_FLAGS = ["-Z", "stubbing"]
 TIER_TIMEOUT = {"quick": 120, "thorough": 1800}
 TIMEOUT_OVERRIDE = None
+PLAYBACK_CONTROLS = False
+TARGET_DIR_ARGS = []
 META_RE = re.compile(r"^\s*//\s*@harness\s+(.*)$")
 
 _scratch_to_delete = []
@@ -91,6 +94,8 @@ def discover():
                 "backs": d.get("backs", ""),
                 "expect": d.get("expect", "pass"),
                 "timeout": int(d["timeout"]) if "timeout" in d else None,
+                # text that every failed check of an expect=fail control must contain (default: "negctl")
+                "failmsg": d.get("failmsg", "negctl"),
                 "file": f"crate/src/{fn}:{i+1}",
             }
             if h["kind"] not in ("complete", "bounded") or h["tier"] not in ("quick", "thorough") or h[
@@ -114,7 +119,7 @@ def select(all_h, props, tier, names):
         unknown = set(names) - {h["name"] for h in all_h}
         if unknown:
             raise SystemExit(f"unknown harness name(s): {sorted(unknown)}")
-        sel = [h for h in sel if h["name"] in names]
+        sel = sorted((h for h in sel if h["name"] in names), key=lambda h: names.index(h["name"]))
     elif tier == "quick":
         sel = [h for h in sel if h["tier"] == "quick"]
     return sel
@@ -282,7 +287,7 @@ def extract_playback(out):
 
 def harness_cmd(h, timeout, extra=()):
     # --exact + fully qualified name: harness names that are substrings of each other do not collide
-    return ["cargo", "kani", "-p", "verif-kani"] + KANI_FLAGS + list(extra) + [
+    return ["cargo", "kani", "-p", "verif-kani"] + KANI_FLAGS + TARGET_DIR_ARGS + list(extra) + [
         "--output-format", "terse", "--exact", "--harness", f"{h['module']}::{h['name']}"]
 
 
@@ -306,9 +311,15 @@ def run_harness(h, root, tier, mem_gb, playback, log_dir):
         res["detail"] = f"killed after {timeout} s wall clock"
     elif p["verdict"] == "SUCCESSFUL" and rc == 0:
         res["status"] = "pass"
+    elif (p["verdict"] == "FAILED" and p["failed_checks"]
+          and all("unwinding assertion" in c["description"] for c in p["failed_checks"])):
+        # only unwinding assertions failed: the harness's unwind bound is too small -> inconclusive, not a
+        # verdict about the code
+        res["status"] = "error"
+        res["detail"] = "unwinding bound too small (only unwinding assertions failed)"
     elif p["verdict"] == "FAILED" and not p["unsupported"] and p["failed_checks"]:
         res["status"] = "fail"
-        res["only_negctl_failed"] = all("negctl" in c["description"] for c in p["failed_checks"])
+        res["only_negctl_failed"] = all(h["failmsg"] in c["description"] for c in p["failed_checks"])
     elif p["verdict"] == "FAILED" and p["unsupported"]:
         # reachable unsupported construct: Kani reports FAILED but it is not a verdict about the property
         res["status"] = "error"
@@ -323,7 +334,7 @@ def run_harness(h, root, tier, mem_gb, playback, log_dir):
         with open(os.path.join(log_dir, h["name"] + ".log"), "w", encoding="utf-8") as f:
             f.write(out)
     # counterexample for an unexpected failure (cheap: the harness just failed within `secs`)
-    if playback and res["status"] == "fail" and h["expect"] == "pass":
+    if (playback and res["status"] == "fail" and h["expect"] == "pass") or (PLAYBACK_CONTROLS and res["status"] == "fail"):
         cmd2 = harness_cmd(h, timeout, extra=["-Z", "concrete-playback", "--concrete-playback=print"])
         rc2, out2, _ = run_cmd(cmd2, root, max(60, min(timeout, int(3 * secs) + 60)), mem_gb)
         pb = extract_playback(out2) if rc2 is not None else None
@@ -344,13 +355,24 @@ def main():
     ap.add_argument("--mem-gb", type=float, default=0.0,
                     help="address-space cap per harness process tree in GiB (0 = none; the wall-clock cap always applies)")
     ap.add_argument("--no-playback", action="store_true", help="do not re-run failed expect=pass harnesses for a counterexample")
+    ap.add_argument("--target-dir", help="persistent cargo target dir shared between invocations (keeps the compiled "
+                    "registry dependencies; default: inside the scratch tree, deleted with it). Must be outside /repo and /verif.")
+    ap.add_argument("--playback-controls", action="store_true",
+                    help="also fetch a counterexample for failing expect=fail controls (debugging aid)")
     ap.add_argument("--scratch", help="(development) use/keep this scratch directory instead of a fresh temporary one")
     ap.add_argument("--log-dir", help="keep raw Kani output per harness in this directory")
     ap.add_argument("--timeout", type=int, default=0, help="(development) override the per-harness wall-clock cap, seconds")
     ap.add_argument("--build-only", action="store_true", help="make the scratch copy and pre-build, run nothing (for `check --setup`)")
     args = ap.parse_args()
 
-    global TIMEOUT_OVERRIDE
+    global TIMEOUT_OVERRIDE, PLAYBACK_CONTROLS, TARGET_DIR_ARGS
+    if args.target_dir:
+        td = os.path.realpath(args.target_dir)
+        for forbidden in ("/repo", "/verif"):
+            if td == forbidden or td.startswith(forbidden + "/"):
+                ap.error(f"--target-dir must not be inside {forbidden}")
+        TARGET_DIR_ARGS = ["--target-dir", td]
+    PLAYBACK_CONTROLS = args.playback_controls
     TIMEOUT_OVERRIDE = args.timeout or None
     props = [p.strip() for p in args.props.split(",") if p.strip()]
     all_h = discover()
@@ -371,14 +393,19 @@ def main():
     try:
         try:
             meta["kani_version"] = subprocess.run(["cargo", "kani", "--version"], capture_output=True, text=True,
-                                                  env=kani_env()).stdout.strip().splitlines()[-1]
+                                                  env=kani_env()).stdout.strip().replace("\n", "; ")
         except Exception as e:  # noqa
             meta["kani_version"] = f"unknown ({e})"
         if sel or args.build_only:
             root = make_scratch(args.repo, args.scratch)
             meta["scratch"] = root
             # pre-build once so that the parallel runs do not each pay (and serialise on) the compilation
-            cmd = ["cargo", "kani", "-p", "verif-kani"] + KANI_FLAGS + ["--only-codegen"]
+            # (dependencies + frost-core are compiled here; each harness run then only re-generates the small
+            # harness crate for its own harness, ~1-3 s).  With a selection, only the first selected harness is
+            # code-generated in the pre-build; `--build-only` code-generates all of them.
+            cmd = ["cargo", "kani", "-p", "verif-kani"] + KANI_FLAGS + TARGET_DIR_ARGS + ["--only-codegen"]
+            if sel and not args.build_only:
+                cmd += ["--exact", "--harness", f"{sel[0]['module']}::{sel[0]['name']}"]
             rc, out, secs = run_cmd(cmd, root, 1800)
             meta["build"] = {"cmd": " ".join(cmd), "rc": rc, "time_s": round(secs, 1)}
             if rc != 0:
